@@ -28,7 +28,7 @@ FLOORS = {
               'broadcast:row-x-column': 80, 'broadcast:scalar': 300, 'broadcast:row': 150, 'broadcast:column': 150,
               'elements:error': 100, 'elements:text': 300, 'chained_fit_cases': 50,
               'lift_function_over_offset_array': 90, 'fit_oversized_reader_ranges': 500,
-              'fit_cases_iterative_mode': 80},
+              'fit_cases_iterative_mode': 80, 'fit_cases_mixed_cells': 100},
     'thorough': {'lift_cases': 150000, 'fit_cases': 12000, 'shape_pairs': 256, 'lift_through_workbook': 5000},
 }
 EXHAUSTIVE = {'quick': False, 'thorough': False}
@@ -270,6 +270,10 @@ def fit_expected(result, th, tw):
 
 FIT_KINDS = {
     'times1': ('={src}*1', lambda v: v),
+    # the cells themselves, of every type: an empty one shows as 0 like any formula result, FALSE and the empty text
+    # (which python also takes for "nothing") stay what they are
+    'identity': ('={src}', lambda v: 0 if v is None else v),
+    'if-empty-text': ('=IF({src}="x y","",{src})', lambda v: '' if v == 'x y' else 0 if v is None else v),
     'concat': ('={src}&""', lambda v: _text(v)),
     'abs': ('=ABS({src})', lambda v: abs(v)),
     'plus-scalar': ('={src}+$J$9', lambda v: v + 100),
@@ -378,6 +382,8 @@ def one_fit(ctx, rh, rw, th, tw, kind, fill, offset, iterative=False):
     # change one source cell
     new = [list(r) for r in src_vals]
     new[rh - 1][rw - 1] = 41 if fill != 'float' else 41.5
+    if fill == 'mixed' and src_vals[rh - 1][rw - 1] not in (None, False, ''):
+        new[rh - 1][rw - 1] = (False, '', None)[(rh + rw + th + tw + offset) % 3]
     comp.set_value(f'{sheet}!{wb.coord(rw, rh)}', new[rh - 1][rw - 1])
     ctx.count('fit_after_set_value')
     check(tuple(tuple(r) for r in new), 'after set_value on a source cell')
@@ -541,6 +547,9 @@ def run(ctx):
         for r in range(reps):
             kind = kinds[(n + r) % len(kinds)]
             fill = 'float' if kind in ('abs', 'plus-scalar', 'scalar-plus') or r % 2 else 'int'
+            if kind in ('identity', 'if-empty-text'):
+                fill = 'mixed'
+                ctx.count('fit_cases_mixed_cells')
             one_fit(ctx, rh, rw, th, tw, kind, fill, offset=(n * 7 + r * 3) % 16, iterative=(n + r) % 5 == 0)
     # ---- (1) lifting: deterministic sweep over shapes x broadcast partners
     m = 0
@@ -621,6 +630,7 @@ def run(ctx):
             rh, rw, th, tw = (rng.randint(1, 4) for _ in range(4))
             kind = rng.choice(kinds)
             one_fit(ctx, rh, rw, th, tw, kind, 'float' if kind in ('abs', 'plus-scalar') else
+                    'mixed' if kind in ('identity', 'if-empty-text') else
                     rng.choice(['int', 'float']), rng.randrange(16))
 
 
